@@ -66,13 +66,17 @@ Definition settings (ops : list op) (t : option tlscfg) : option tlscfg := fold_
 
 Lemma with_tls_tls o c : c_tls (with_tls o c) = o. Proof. reflexivity. Qed.
 
+Lemma rt_h3_fresh_tls e c : c_tls (snd (rt_h3_fresh e c)) = c_tls c.
+Proof.
+  unfold rt_h3_fresh. destruct (h3_dial e c) as [h d]. destruct h as [p|er]; [reflexivity|]. destruct er; reflexivity.
+Qed.
+
 Lemma rt_h3_tls oc e c r : rt_h3 oc e c = Some r -> c_tls (snd r) = c_tls c.
 Proof.
   unfold rt_h3. destruct (negb (e_https e)); [intros H; inversion H; reflexivity|].
   destruct (c_t3 c); try (intros H; inversion H; reflexivity).
-  destruct oc; [discriminate|].
-  destruct (h3_dial e c) as [h d]. destruct h as [p|er]; [intros H; inversion H; reflexivity|].
-  destruct er; intros H; inversion H; reflexivity.
+  - destruct oc; [discriminate|]. intros H; inversion H. apply rt_h3_fresh_tls.
+  - destruct oc; intros H; inversion H; [reflexivity|]. rewrite rt_h3_fresh_tls. reflexivity.
 Qed.
 
 Lemma rt_h2_dial_tls e c : c_tls (snd (rt_h2_dial e c)) = c_tls c.
@@ -135,7 +139,8 @@ Lemma do_bg_tls e c : c_tls (snd (do_bg e c)) = c_tls c.
 Proof.
   unfold do_bg. destruct (negb (c_bg c)); [reflexivity|].
   destruct (c_t3 c); try reflexivity.
-  destruct (h3_dial e c) as [h d]. destruct h as [p|er]; [reflexivity|]. destruct er; reflexivity.
+  destruct (h3_dial e c) as [h d]. destruct h as [p|er]; [reflexivity|].
+  destruct er; try reflexivity. destruct (verify_ok _ _); reflexivity.
 Qed.
 
 Lemma step_tls g e c o : c_tls (snd (step_gen g e c o)) = cfg_op o (c_tls c).
@@ -254,17 +259,23 @@ Qed.
 
 Ltac one_dial := apply Forall_cons; [|apply Forall_nil].
 
-Lemma rt_h3_sound oc e c r : rt_h3 oc e c = Some r -> req_sound e c r.
+Lemma rt_h3_fresh_sound e c : req_sound e c (rt_h3_fresh e c).
 Proof.
-  unfold rt_h3, req_sound. destruct (negb (e_https e)).
-  { intros H; inversion H. constructor. }
-  destruct (c_t3 c); try (intros H; inversion H; constructor).
-  destruct oc; [discriminate|].
+  unfold rt_h3_fresh, req_sound.
   pose proof (h3_dial_sound e c) as D. destruct (h3_dial e c) as [h d]. cbn [fst snd] in D.
   destruct h as [p|er].
-  - intros H; inversion H. one_dial. apply D; [intros; eexists; reflexivity | discriminate].
-  - destruct er; intros H; inversion H; try apply Forall_nil; one_dial; apply D;
+  - one_dial. apply D; [intros; eexists; reflexivity | discriminate].
+  - destruct er; try apply Forall_nil; one_dial; apply D;
       try (intros v Hv; discriminate); try discriminate; intros _; reflexivity.
+Qed.
+
+Lemma rt_h3_sound oc e c r : rt_h3 oc e c = Some r -> req_sound e c r.
+Proof.
+  unfold rt_h3. destruct (negb (e_https e)).
+  { intros H; inversion H. constructor. }
+  destruct (c_t3 c); try (intros H; inversion H; constructor).
+  - destruct oc; [discriminate|]. intros H; inversion H. apply rt_h3_fresh_sound.
+  - destruct oc; intros H; inversion H; [constructor|]. exact (rt_h3_fresh_sound e (with_t3 T3None c)).
 Qed.
 
 Lemma rt_h2_dial_sound e c : req_sound e c (rt_h2_dial e c).
@@ -272,6 +283,7 @@ Proof.
   unfold rt_h2_dial, req_sound.
   destruct (negb (e_https e || c_allow_http c)); [constructor|].
   destruct (c_t2 c); [constructor|].
+  destruct (negb (e_https e) && h2_plain_dial_for_http); [destruct (s_h2c (e_srv e)); constructor|].
   destruct (c_plain_dialtls c).
   { destruct (negb (e_https e) && s_h2c (e_srv e)); constructor. }
   destruct (negb (e_https e)); [constructor|].
@@ -375,28 +387,39 @@ Definition version_of (f : force) : option version :=
 
 Definition outcome_of (r : res) : outcome := fst (fst r).
 
+Lemma rt_h3_fresh_outcome e c :
+  outcome_of (rt_h3_fresh e c) = Use V3 \/ exists er, outcome_of (rt_h3_fresh e c) = Fail er.
+Proof.
+  unfold rt_h3_fresh, outcome_of. destruct (h3_dial e c) as [h d]. destruct h as [p|er]; [left; reflexivity|].
+  destruct er; right; eexists; reflexivity.
+Qed.
+
 Lemma rt_h3_outcome oc e c r : rt_h3 oc e c = Some r -> outcome_of r = Use V3 \/ exists er, outcome_of r = Fail er.
 Proof.
-  unfold rt_h3, outcome_of. destruct (negb (e_https e)); [intros H; inversion H; right; eexists; reflexivity|].
+  unfold rt_h3. destruct (negb (e_https e)); [intros H; inversion H; right; eexists; reflexivity|].
   destruct (c_t3 c).
-  - destruct oc; [discriminate|]. destruct (h3_dial e c) as [h d]. destruct h as [p|er].
-    + intros H; inversion H; left; reflexivity.
-    + destruct er; intros H; inversion H; right; eexists; reflexivity.
+  - destruct oc; [discriminate|]. intros H; inversion H. apply rt_h3_fresh_outcome.
   - intros H; inversion H; left; reflexivity.
   - intros H; inversion H; right; eexists; reflexivity.
   - intros H; inversion H; right; eexists; reflexivity.
+  - destruct oc; intros H; inversion H; [right; eexists; reflexivity | apply rt_h3_fresh_outcome].
+Qed.
+
+Lemma rt_h3_fresh_v3 e c : outcome_of (rt_h3_fresh e c) = Use V3 -> s_h3 (e_srv e) = true.
+Proof.
+  unfold rt_h3_fresh, outcome_of, h3_dial. destruct (s_h3 (e_srv e)); [reflexivity|]. cbn. discriminate.
 Qed.
 
 Lemma rt_h3_v3_needs_listener oc e c r :
   rt_h3 oc e c = Some r -> outcome_of r = Use V3 -> c_t3 c = T3Conn \/ s_h3 (e_srv e) = true.
 Proof.
-  unfold rt_h3, outcome_of. destruct (negb (e_https e)); [intros H; inversion H; discriminate|].
+  unfold rt_h3. destruct (negb (e_https e)); [intros H; inversion H; discriminate|].
   destruct (c_t3 c).
-  - destruct oc; [discriminate|]. unfold h3_dial. destruct (s_h3 (e_srv e)); [intros; right; reflexivity|].
-    intros H; inversion H; discriminate.
+  - destruct oc; [discriminate|]. intros H; inversion H. intros V. right. eapply rt_h3_fresh_v3; eauto.
   - intros; left; reflexivity.
   - intros H; inversion H; discriminate.
   - intros H; inversion H; discriminate.
+  - destruct oc; intros H; inversion H; [discriminate|]. intros V. right. eapply rt_h3_fresh_v3; eauto.
 Qed.
 
 Lemma rt_h2_dial_outcome e c : outcome_of (rt_h2_dial e c) = Use V2 \/ exists er, outcome_of (rt_h2_dial e c) = Fail er.
@@ -491,17 +514,26 @@ Definition inv3 (e : env) (c : client) : Prop := c_t3 c = T3Conn -> s_h3 (e_srv 
 Definition inv2 (e : env) (c : client) : Prop :=
   c_t2 c = true -> if e_https e then mem_bytes alpn_h2 (s_alpn (e_srv e)) = true else s_h2c (e_srv e) = true.
 
+Lemma rt_h3_fresh_inv e c :
+  c_t3 c <> T3Conn -> inv2 e c -> inv3 e (snd (rt_h3_fresh e c)) /\ inv2 e (snd (rt_h3_fresh e c)).
+Proof.
+  unfold rt_h3_fresh, inv3, inv2, h3_dial. intros T I2. destruct (s_h3 (e_srv e)) eqn:S.
+  - destruct (handshake _ _ _) as [p|er]; [cbn; auto|].
+    destruct er; cbn; auto; split; auto; try discriminate; intros X; contradiction.
+  - cbn. split; auto. discriminate.
+Qed.
+
 Lemma rt_h3_inv oc e c r : rt_h3 oc e c = Some r -> inv3 e c -> inv2 e c -> inv3 e (snd r) /\ inv2 e (snd r).
 Proof.
-  unfold rt_h3, inv3, inv2. destruct (negb (e_https e)); [intros H; inversion H; auto|].
+  unfold rt_h3. destruct (negb (e_https e)); [intros H; inversion H; auto|].
   destruct (c_t3 c) eqn:T.
-  - destruct oc; [discriminate|]. unfold h3_dial. destruct (s_h3 (e_srv e)) eqn:S.
-    + destruct (handshake _ _ _) as [p|er]; [intros H; inversion H; cbn; auto|].
-      destruct er; intros H; inversion H; cbn; rewrite ?T; auto; split; auto; discriminate.
-    + intros H; inversion H; cbn. split; auto. discriminate.
-  - intros H; inversion H; cbn; rewrite T; auto.
-  - intros H; inversion H; cbn. split; auto. discriminate.
-  - intros H I3 I2; inversion H; cbn. rewrite T. split; [discriminate | exact I2].
+  - destruct oc; [discriminate|]. intros H I3 I2; inversion H. apply rt_h3_fresh_inv; [rewrite T; discriminate | exact I2].
+  - intros H; inversion H; cbn; auto.
+  - intros H I3 I2; inversion H; unfold inv3, inv2 in *; cbn. split; [discriminate | exact I2].
+  - intros H I3 I2; inversion H; cbn; auto.
+  - destruct oc; intros H I3 I2; inversion H.
+    + unfold inv3, inv2 in *; cbn. split; [discriminate | exact I2].
+    + apply rt_h3_fresh_inv; [cbn; discriminate | exact I2].
 Qed.
 
 Lemma rt_h2_dial_t3 e c : c_t3 (snd (rt_h2_dial e c)) = c_t3 c.
@@ -520,6 +552,8 @@ Proof.
   unfold rt_h2_dial.
   destruct (negb (e_https e || c_allow_http c)); [left; reflexivity|].
   destruct (c_t2 c) eqn:T; [left; cbn; auto|].
+  destruct (negb (e_https e) && h2_plain_dial_for_http) eqn:PL.
+  { destruct (e_https e); [discriminate|]. destruct (s_h2c (e_srv e)); [right; reflexivity | left; cbn; auto]. }
   destruct (c_plain_dialtls c).
   { destruct (e_https e); cbn [negb andb]; [left; cbn; auto|].
     destruct (s_h2c (e_srv e)); [right; reflexivity | left; cbn; auto]. }
@@ -612,10 +646,13 @@ Proof.
   unfold do_bg, inv3, inv2. intros I3 I2. destruct (negb (c_bg c)); [auto|].
   destruct (c_t3 c) eqn:T.
   - unfold h3_dial. destruct (s_h3 (e_srv e)) eqn:S.
-    + destruct (handshake _ _ _) as [p|er]; [cbn; split; auto|]. destruct er; cbn; split; auto; discriminate.
+    + destruct (handshake _ _ _) as [p|er]; [cbn; split; auto|].
+      destruct er; try (cbn; split; auto; discriminate).
+      destruct (verify_ok _ _); cbn; split; auto; discriminate.
     + cbn. split; auto. discriminate.
   - cbn. rewrite T. auto.
   - cbn. split; auto. discriminate.
+  - cbn. rewrite T. split; [discriminate | exact I2].
   - cbn. rewrite T. split; [discriminate | exact I2].
 Qed.
 
@@ -730,7 +767,9 @@ Proof.
       destruct (c_allow_http c) eqn:AH; cbn [negb]; [|exact I].
       destruct (c_t2 c) eqn:T.
       * cbn. unfold inv2 in I2. rewrite Hs in I2. auto.
-      * destruct (c_plain_dialtls c); [|exact I].
+      * destruct h2_plain_dial_for_http.
+        { destruct (s_h2c (e_srv e)) eqn:Hc; cbn; auto. }
+        destruct (c_plain_dialtls c); [|exact I].
         destruct (s_h2c (e_srv e)) eqn:Hc; cbn; auto.
     + destruct (rt_h3 false e c) eqn:E; [|exact I]. destruct (H3 _ _ E) as [er K]. rewrite K. exact I.
 Qed.
@@ -797,15 +836,19 @@ Definition dials_or_fails (r : res) : Prop :=
   let '(o, ds, _) := r in
   o <> Cleartext /\ (ds <> [] \/ exists er, o = Fail er /\ er <> ECert).
 
+Lemma rt_h3_fresh_dials e c : dials_or_fails (rt_h3_fresh e c).
+Proof.
+  unfold rt_h3_fresh, dials_or_fails. destruct (h3_dial e c) as [h d]. destruct h as [p|er].
+  - split; [discriminate | left; discriminate].
+  - destruct er; (split; [discriminate|]); try (left; discriminate).
+    right. eexists; split; [reflexivity | discriminate].
+Qed.
+
 Lemma rt_h3_dials oc e c r :
   e_https e = true -> c_t3 c = T3None -> rt_h3 oc e c = Some r -> dials_or_fails r.
 Proof.
   intros Hs H3. unfold rt_h3. rewrite Hs, H3. cbn [negb].
-  destruct oc; [discriminate|].
-  destruct (h3_dial e c) as [h d]. destruct h as [p|er].
-  - intros H; inversion H. split; [discriminate | left; discriminate].
-  - destruct er; intros H; inversion H; (split; [discriminate|]); try (left; discriminate).
-    right. eexists; split; [reflexivity | discriminate].
+  destruct oc; [discriminate|]. intros H; inversion H. apply rt_h3_fresh_dials.
 Qed.
 
 Lemma rt_h2_dial_dials e c :
